@@ -462,7 +462,8 @@ spif_linked_list_comp(spif_linked_list_t self, spif_linked_list_t other)
 {
     SPIF_OBJ_COMP_CHECK_NULL(self, other);
     /* FIXME:  This should probably do something more intelligent. */
-    return (SPIF_OBJ_COMP(SPIF_OBJ(self), SPIF_OBJ(other)));
+    /* (SPIF_OBJ_COMP() would dispatch right back to this function.) */
+    return (spif_obj_comp(SPIF_OBJ(self), SPIF_OBJ(other)));
 }
 
 static spif_linked_list_t
